@@ -5,6 +5,7 @@
   ONLY property statements here; lemmas live in Proofs/.
 -/
 import MoThreads.Proofs.SignalCoreMain
+import MoThreads.Proofs.SignalCoreRank
 namespace MoThreads.SignalCore
 open MoThreads
 
@@ -160,5 +161,78 @@ def demoRun : Option State := do
 
 example : (demoRun.map fun s => (s.go, s.pc 0, s.pc 1)) = some (true, .idle .waitTrue, .idle .goSelf) := by
   decide
+
+theorem run_go_mono {s s' : State} {tr : List (Nat × Label)} (r : sys.Run s tr s') (hg : s.go = true) : s'.go = true := by
+  induction r with
+  | nil => exact hg
+  | cons hs _ ih => exact ih (C01_flag_monotone_step hs hg)
+
+/-- L2 (termination): with no new API calls, every schedule — fair or not — takes at most `rank N s`
+steps, where `N` bounds the ids of the threads that are inside a call; the rank is an explicit function
+of the program counters and the lengths of the two shared lists. -/
+theorem C01_runs_terminate {N : Nat} {s s' : State} {tr : List (Nat × Label)} (hb : Below N s)
+    (r : sys.Run s tr s') : tr.length ≤ rank N s := by
+  have := run_length_le_rank hb r; omega
+
+/-- … and a run that cannot be extended has released everybody: once the flag is true every `wait()`,
+`go()`, `then()`, `remove_then()` in progress returns after finitely many steps of any scheduler that
+does not stop while some thread can move. -/
+theorem C01_every_wait_returns {N : Nat} {s s' : State} {tr : List (Nat × Label)} (h : sys.Reach s) (hb : Below N s)
+    (hg : s.go = true) (r : sys.Run s tr s') :
+    tr.length ≤ rank N s ∧ (sys.Quiescent s' → ∀ t, ∃ r, s'.pc t = .idle r) :=
+  ⟨C01_runs_terminate hb r, fun hq t => C01_quiescent_all_returned (h.run sys r) hq (run_go_mono r hg) t⟩
+
+
+/-! non-vacuity of the L2 theorems: t0 is parked in wait(), t1 has just published the flag -/
+
+def stepD (s : State) (t : Nat) : State := ((step s t).map (·.1)).getD s
+def callD (s : State) (t : Nat) (op : Op) : State := (call s t op).getD s
+def demoL2 : State :=
+  [0, 0, 0, 0, 0, 0, 0, 1, 1, 1, 1].foldl stepD (callD (callD (init false (fun _ => false)) 0 .wait) 1 .go)
+
+theorem reach_stepD {s : State} (h : sys.Reach s) (t : Nat) : sys.Reach (stepD s t) := by
+  unfold stepD
+  cases hs : step s t with
+  | none => exact h
+  | some p => exact Sys.Reach.step (t := t) (l := p.2) h (by show step s t = some (p.1, p.2); rw [hs])
+
+theorem reach_callD {s : State} (h : sys.Reach s) (t : Nat) (op : Op) : sys.Reach (callD s t op) := by
+  unfold callD
+  cases hs : call s t op with
+  | none => exact h
+  | some p => exact Sys.Reach.env h ⟨t, op, hs⟩
+
+theorem below_stepD {N : Nat} {s : State} (h : Below N s) (t : Nat) : Below N (stepD s t) := by
+  unfold stepD
+  cases hs : step s t with
+  | none => exact h
+  | some p => exact below_step (t := t) (l := p.2) h (by show step s t = some (p.1, p.2); rw [hs])
+
+theorem below_callD {N : Nat} {s : State} (h : Below N s) (t : Nat) (ht : t < N) (op : Op) : Below N (callD s t op) := by
+  unfold callD
+  cases hs : call s t op with
+  | none => exact h
+  | some p =>
+    intro u hu
+    have hne : u ≠ t := by omega
+    unfold call at hs
+    split at hs
+    · cases op <;> simp only at hs <;> (try split at hs) <;> (cases hs; simpa [State.setPc, hne] using h u hu)
+    · cases hs
+
+theorem reach_foldl {s : State} (h : sys.Reach s) (ts : List Nat) : sys.Reach (ts.foldl stepD s) := by
+  induction ts generalizing s with
+  | nil => exact h
+  | cons t ts ih => exact ih (reach_stepD h t)
+
+theorem below_foldl {N : Nat} {s : State} (h : Below N s) (ts : List Nat) : Below N (ts.foldl stepD s) := by
+  induction ts generalizing s with
+  | nil => exact h
+  | cons t ts ih => exact ih (below_stepD h t)
+
+example : sys.Reach demoL2 ∧ Below 2 demoL2 ∧ demoL2.go = true ∧ demoL2.pc 0 = .w7 0 ∧ demoL2.pc 1 = .g4 ∧ rank 2 demoL2 = 7 := by
+  refine ⟨reach_foldl (reach_callD (reach_callD (Sys.Reach.init ⟨_, _, rfl⟩) 0 .wait) 1 .go) _,
+    below_foldl (below_callD (below_callD (fun t _ => ⟨.none, rfl⟩) 0 (by omega) .wait) 1 (by omega) .go) _,
+    by decide, by decide, by decide, by decide⟩
 
 end MoThreads.SignalCore
